@@ -39,17 +39,42 @@ func VerifHarness_C09_ICC_Arbitrary() {
 // with unconstrained record count, record size, string lengths and offsets.
 func VerifHarness_C09_ICC_Desc() {
 	var data []byte
-	switch verifChoice(3) {
+	which := verifC09Case
+	if which < 0 {
+		which = verifChoice(5)
+	}
+	switch which {
 	case 0:
 		data = append([]byte("desc"), verifBytes(4)...)
 		data = append(data, verifBytes(4)...) // ASCII count
 		data = append(data, verifBytes(6)...)
 	case 1:
+		// mluc, record count and record size unconstrained; the one physically present
+		// record is well-formed (its string inside the tag)
 		data = append([]byte("mluc"), verifBytes(4)...)
 		data = append(data, verifBytes(8)...) // record count, record size
-		r := verifChoice(verifC09R + 1)
-		data = append(data, verifBytes(12*r)...) // records: lang, country, length, offset
-		data = append(data, verifBytes(4)...)
+		data = append(data, verifBytes(4)...) // language, country
+		data = append(data, 0, 0, 0, 2, 0, 0, 0, 28)
+		data = append(data, verifBytes(2)...)
+	case 2:
+		// mluc, one record of size 12 whose string length and offset are unconstrained
+		// (string content is concrete: the property does not depend on it and symbolic
+		// code units fork 5 ways each in string(utf16.Decode(...)))
+		data = append([]byte("mluc"), 0, 0, 0, 0)
+		data = append(data, 0, 0, 0, 1, 0, 0, 0, 12)
+		data = append(data, "enUS"...)
+		data = append(data, verifBytes(8)...) // string length, string offset
+		data = append(data, 0, 65, 0, 66)
+	case 3:
+		// mluc, two well-formed records, unconstrained record size field
+		data = append([]byte("mluc"), 0, 0, 0, 0)
+		data = append(data, 0, 0, 0, 2)
+		data = append(data, verifBytes(4)...) // record size
+		for i := 0; i < 2; i++ {
+			data = append(data, 'e', 'n', 'U', byte('S'+i))
+			data = append(data, 0, 0, 0, 2, 0, 0, 0, byte(40+2*i))
+		}
+		data = append(data, 0, 65, 0, 66)
 	default:
 		data = verifBytes(verifChoice(10))
 	}
